@@ -157,8 +157,11 @@ def run(ctx):
     import statemach
     statemach.check(probe, st, 'dfscan_selftest::machine::GoodStream', rule='st-fin')
     statemach.check(probe, st, 'dfscan_selftest::machine::BadStream', rule='st-fin')
-    ctx.selftest('finaliser-bypass reports a refill handler that jumps to Done while the global emission is still owed (BadStream), silent on the guarded version (GoodStream)',
-                 sorted(v['key'] for v in probe.viol if v['rule'] == 'st-fin') == ['st-fin|BadStream: Fill -> Done in handle_fill'])
+    _, lm = statemach.check(probe, st, 'dfscan_selftest::machine::LimitStream', rule='st-fin')
+    ctx.selftest('finaliser-bypass reports a refill handler that jumps to Done while the global emission is still owed (BadStream), silent on the guarded version (GoodStream) '
+                 'and on a limit-reached jump where the only common entry condition is dispatch-wide (LimitStream; its Build state with a computed successor is not terminal)',
+                 sorted(v['key'] for v in probe.viol if v['rule'] == 'st-fin') == ['st-fin|BadStream: Fill -> Done in handle_fill']
+                 and lm is not None and lm['T'] == {'Finished'} and lm['F'] == {'Exhausted'} and lm['G'].get('Exhausted') == {})
     tab = {}
     rec = st.fn('dfscan_selftest::tables::bad_need_produce_result_in_final')
     for jtv in enum_domain(st, 'dfscan_selftest::tables::JoinType'):
